@@ -2659,8 +2659,11 @@ static PyObject* gemm(PyObject *self, PyObject *args, PyObject *kwrds)
 
     if (ldA == 0) ldA = MAX(1,A->nrows);
     if (k > 0 && ldA < MAX(1, (transA == 'N') ? m : k)) err_ld("ldA");
+    /* A is not referenced if k = 0, but BLAS still rejects a small ldA */
+    if (k == 0) ldA = MAX(ldA, MAX(1, (transA == 'N') ? m : k));
     if (ldB == 0) ldB = MAX(1,B->nrows);
     if (k > 0 && ldB < MAX(1, (transB == 'N') ? k : n)) err_ld("ldB");
+    if (k == 0) ldB = MAX(ldB, MAX(1, (transB == 'N') ? k : n));
     if (ldC == 0) ldC = MAX(1,C->nrows);
     if (ldC < MAX(1,m)) err_ld("ldB");
 
@@ -3086,6 +3089,8 @@ static PyObject* syrk(PyObject *self, PyObject *args, PyObject *kwrds)
 
     if (ldA == 0) ldA = MAX(1,A->nrows);
     if (k > 0 && ldA < MAX(1, (trans == 'N') ? n : k)) err_ld("ldA");
+    /* A is not referenced if k = 0, but BLAS still rejects a small ldA */
+    if (k == 0) ldA = MAX(ldA, MAX(1, (trans == 'N') ? n : k));
     if (ldC == 0) ldC = MAX(1,C->nrows);
     if (ldC < MAX(1,n)) err_ld("ldC");
     if (oA < 0) err_nn_int("offsetA");
@@ -3208,6 +3213,8 @@ static PyObject* herk(PyObject *self, PyObject *args, PyObject *kwrds)
 
     if (ldA == 0) ldA = MAX(1,A->nrows);
     if (k > 0 && ldA < MAX(1, (trans == 'N') ? n : k)) err_ld("ldA");
+    /* A is not referenced if k = 0, but BLAS still rejects a small ldA */
+    if (k == 0) ldA = MAX(ldA, MAX(1, (trans == 'N') ? n : k));
     if (ldC == 0) ldC = MAX(1,C->nrows);
     if (ldC < MAX(1,n)) err_ld("ldC");
     if (oA < 0) err_nn_int("offsetA");
@@ -3350,8 +3357,11 @@ static PyObject* syr2k(PyObject *self, PyObject *args, PyObject *kwrds)
 
     if (ldA == 0) ldA = MAX(1,A->nrows);
     if (k > 0 && ldA < MAX(1, (trans == 'N') ? n : k)) err_ld("ldA");
+    /* A is not referenced if k = 0, but BLAS still rejects a small ldA */
+    if (k == 0) ldA = MAX(ldA, MAX(1, (trans == 'N') ? n : k));
     if (ldB == 0) ldB = MAX(1,B->nrows);
     if (k > 0 && ldB < MAX(1, (trans == 'N') ? n : k)) err_ld("ldB");
+    if (k == 0) ldB = MAX(ldB, MAX(1, (trans == 'N') ? n : k));
     if (ldC == 0) ldC = MAX(1,C->nrows);
     if (ldC < MAX(1,n)) err_ld("ldC");
 
@@ -3510,8 +3520,11 @@ static PyObject* her2k(PyObject *self, PyObject *args, PyObject *kwrds)
 
     if (ldA == 0) ldA = MAX(1,A->nrows);
     if (k > 0 && ldA < MAX(1, (trans == 'N') ? n : k)) err_ld("ldA");
+    /* A is not referenced if k = 0, but BLAS still rejects a small ldA */
+    if (k == 0) ldA = MAX(ldA, MAX(1, (trans == 'N') ? n : k));
     if (ldB == 0) ldB = MAX(1,B->nrows);
     if (k > 0 && ldB < MAX(1, (trans == 'N') ? n : k)) err_ld("ldB");
+    if (k == 0) ldB = MAX(ldB, MAX(1, (trans == 'N') ? n : k));
     if (ldC == 0) ldC = MAX(1,C->nrows);
     if (ldC < MAX(1,n)) err_ld("ldC");
 
